@@ -442,7 +442,7 @@ def main(tier, seed):
     rep.assumed_contract("core field functions (magnet_cuboid_Bfield, magnet_cylinder_{axial_B,diametral_H}field, "
                          "magnet_cylinder_segment_Hfield, triangle_Bfield, dipole_Hfield, current_circle_Hfield, "
                          "current_polyline_Hfield) are row-wise functions of their row arguments (C06 obligation); their values are arbitrary")
-    rep.assumed_contract("tetrahedron.point_inside: row-wise predicate symmetric under exchange of vertices 2,3 (assumed); "
+    rep.assumed_contract("tetrahedron.point_inside: symmetric under exchange of vertices 2,3 — PROVED here on the real code (rational normal form), row-wise proved in C06; "
                          "check_chirality: returns the vertices with 2,3 exchanged exactly on negative-determinant rows — PROVED here on the real code "
                          "(checks/c06_cores.py chirality_contract), so the Tetrahedron wrapper's stub is a checked contract")
     rep.assumed_contract("BHJM_cylinder_segment_internal is verified modularly: its callees BHJM_cylinder_segment and "
@@ -457,6 +457,7 @@ def main(tier, seed):
     from checks import c06_cores
 
     tasks.append(("core.check_chirality.contract", lambda r: c06_cores.chirality_contract(r)))
+    tasks.append(("core.point_inside.symmetry", lambda r: c06_cores.point_inside_symmetry(r)))
     fails = run_parallel(rep, tasks)
     known = {k["id"]: k for k in load_known() if k["property"] == PID and k.get("status") == "known"}
     # known findings: proved on the complement; witness must still fail natively
